@@ -1145,6 +1145,112 @@ def gen_reset():
     return "\n".join(L)
 
 
+def gen_huf():
+    """Constants / operators of the Huffman coder (C13): every one is plain source text."""
+    enc = strip_comments(read("ruzstd/src/huff0/huff0_encoder.rs"))
+    dec = strip_comments(read("ruzstd/src/huff0/huff0_decoder.rs"))
+    lsd = strip_comments(read("ruzstd/src/decoding/literals_section_decoder.rs"))
+    OPRE = r"(?P<op>>=|<=|==|!=|>|<)"
+    N = []  # (name, value, where)
+    G = []  # (name, op, where)
+
+    def need(text, pattern, anchor, flags=0):
+        m = re.search(pattern, text, flags)
+        if not m:
+            raise ExtractError(f"extract:huf:{anchor}")
+        return m
+
+    # --- encoder: build_from_counts depth limit `weights.len().ilog2() as usize + K`
+    b = fn_body(enc, "build_from_counts", "huf")
+    m = need(b, r"let\s+limit\s*=\s*weights\.len\(\)\.ilog2\(\)\s*as\s+usize\s*\+\s*(\d+)\s*;", "build_from_counts limit")
+    N.append(("hufLimitAdd", int(m.group(1)), "huff0_encoder.rs build_from_counts: `limit = weights.len().ilog2() + K`"))
+    m = need(b, r"assert!\(\s*counts\.len\(\)\s*" + OPRE + r"\s*(\d+)\s*\)", "build_from_counts assert")
+    N.append(("hufMaxCounts", int(m.group(2)), "huff0_encoder.rs build_from_counts: `assert!(counts.len() OP K)`"))
+    G.append(("hufCountsLenOk", m.group("op"), "huff0_encoder.rs build_from_counts `assert!(counts.len() OP 256)`"))
+    # --- encoder: distribute_weights asserts
+    b = fn_body(enc, "distribute_weights", "huf")
+    m1 = need(b, r"assert!\(\s*amount\s*" + OPRE + r"\s*(\d+)\s*\)\s*;\s*assert!\(\s*amount\s*(?P<op2>>=|<=|==|!=|>|<)\s*(\d+)\s*\)", "distribute_weights asserts")
+    G.append(("hufAmountLoOk", m1.group("op"), "huff0_encoder.rs distribute_weights first `assert!(amount OP K)`"))
+    N.append(("hufAmountLo", int(m1.group(2)), "huff0_encoder.rs distribute_weights first assert bound"))
+    G.append(("hufAmountHiOk", m1.group("op2"), "huff0_encoder.rs distribute_weights second `assert!(amount OP K)`"))
+    N.append(("hufAmountHi", int(m1.group(4)), "huff0_encoder.rs distribute_weights second assert bound"))
+    # --- encoder: write_table
+    b = fn_body(enc, "write_table", "huf")
+    m = need(b, r"if\s+weights\.len\(\)\s*" + OPRE + r"\s*(\d+)\s*\{", "write_table direct/fse switch")
+    G.append(("hufUseFse", m.group("op"), "huff0_encoder.rs write_table `if weights.len() OP K` (then-branch = FSE-compressed form)"))
+    N.append(("hufDirectMax", int(m.group(2)), "huff0_encoder.rs write_table direct/FSE switch bound"))
+    m = need(b, r"build_table_from_data\(\s*weights\.iter\(\)\.copied\(\)\s*,\s*(\d+)\s*,\s*(true|false)\s*\)", "write_table fse params")
+    N.append(("hufWeightsMaxLogEnc", int(m.group(1)), "huff0_encoder.rs write_table: max accuracy log of the weights' FSE table"))
+    m = need(b, r"assert!\(\s*encoded_len\s*" + OPRE + r"\s*(\d+)\s*\)", "write_table encoded_len assert")
+    G.append(("hufFseLenOk", m.group("op"), "huff0_encoder.rs write_table `assert!(encoded_len OP K)`"))
+    N.append(("hufFseLenBound", int(m.group(2)), "huff0_encoder.rs write_table encoded_len bound"))
+    m = need(b, r"write_bits\(\s*weights\.len\(\)\s*as\s+u8\s*\+\s*(\d+)\s*,\s*8\s*\)", "write_table direct header")
+    N.append(("hufDirectHeaderAddEnc", int(m.group(1)), "huff0_encoder.rs write_table: direct header byte = len + K"))
+    # nibble order of the direct form: which of weight1 / weight2 is written first (= low nibble)
+    order = re.findall(r"self\.writer\.write_bits\(\s*(weight1|weight2)\s*,\s*4\s*\)", b)
+    if sorted(order) != ["weight1", "weight2"]:
+        raise ExtractError("extract:huf:write_table nibble writes")
+    m = need(b, r"write_bits\(\s*weight\s*<<\s*(\d+)\s*,\s*8\s*\)", "write_table odd remainder")
+    N.append(("hufOddShift", int(m.group(1)), "huff0_encoder.rs write_table: odd remainder written as `weight << K`"))
+    # --- encoder: encode4x
+    b = fn_body(enc, "encode4x", "huf")
+    m = need(b, r"assert!\(\s*data\.len\(\)\s*" + OPRE + r"\s*(\d+)\s*\)", "encode4x assert")
+    G.append(("hufEnc4LenOk", m.group("op"), "huff0_encoder.rs encode4x `assert!(data.len() OP K)`"))
+    N.append(("hufEnc4MinLen", int(m.group(2)), "huff0_encoder.rs encode4x min length"))
+    m = need(b, r"data\.len\(\)\.div_ceil\(\s*(\d+)\s*\)", "encode4x split")
+    N.append(("hufSplitDiv", int(m.group(1)), "huff0_encoder.rs encode4x: split_size = len.div_ceil(K)"))
+    # --- decoder
+    b = fn_body(dec, "read_weights", "huf")
+    m = need(b, r"(\d+)\s*\.\.=\s*(\d+)\s*=>", "read_weights header arm")
+    if int(m.group(1)) != 0:
+        raise ExtractError("extract:huf:read_weights header arm lower bound")
+    N.append(("hufFseHeaderMax", int(m.group(2)), "huff0_decoder.rs read_weights: `0..=K` = FSE-compressed form"))
+    m = need(b, r"self\.fse_table\.build_decoder\(\s*fse_stream\s*,\s*(\d+)\s*\)", "read_weights fse max log")
+    N.append(("hufWeightsMaxLogDec", int(m.group(1)), "huff0_decoder.rs read_weights: max accuracy log of the weights' FSE table"))
+    m = need(b, r"let\s+num_weights\s*=\s*header\s*-\s*(\d+)\s*;", "read_weights direct header")
+    N.append(("hufDirectHeaderSubDec", int(m.group(1)), "huff0_decoder.rs read_weights: num_weights = header - K"))
+    m = need(b, r"if\s+self\.weights\.len\(\)\s*" + OPRE + r"\s*(\d+)\s*\{", "read_weights too many weights")
+    G.append(("hufTooManyWeights", m.group("op"), "huff0_decoder.rs read_weights `if self.weights.len() OP K` (then-branch = TooManyWeights)"))
+    N.append(("hufTooManyWeightsBound", int(m.group(2)), "huff0_decoder.rs read_weights TooManyWeights bound"))
+    ends = re.findall(r"if\s+br\.bits_remaining\(\)\s*(>=|<=|==|!=|>|<)\s*(-?\d+)\s*\{", b)
+    if len(ends) != 2 or ends[0] != ends[1]:
+        raise ExtractError("extract:huf:read_weights termination rule")
+    G.append(("hufFseStreamEnd", ends[0][0], "huff0_decoder.rs read_weights `if br.bits_remaining() OP K` (then-branch = stop), a = bits_remaining + offset, b = K + offset (offset 4096 keeps both in Nat)"))
+    N.append(("hufFseStreamEndK", int(ends[0][1]) + 4096, "huff0_decoder.rs read_weights termination constant + 4096"))
+    m = need(b, r"if\s+idx\s*%\s*2\s*==\s*0\s*\{\s*self\.weights\[idx as usize\]\s*=\s*weights_raw\[idx as usize / 2\]\s*(>>\s*4|&\s*0xF)\s*;", "read_weights nibble order")
+    dec_even_high = m.group(1).startswith(">>")
+    m = need(b, r"if\s+val\s*==\s*1\s*\|\|\s*skipped_bits\s*" + OPRE + r"\s*(\d+)", "read_weights padding loop")
+    N.append(("hufMaxSkip", int(m.group(2)), "huff0_decoder.rs read_weights: padding loop stops when skipped_bits > K"))
+    b = fn_body(dec, "build_table_from_weights", "huf")
+    m = need(b, r"if\s+\*w\s*" + OPRE + r"\s*MAX_MAX_NUM_BITS", "build_table weight check")
+    G.append(("hufWeightTooBig", m.group("op"), "huff0_decoder.rs build_table_from_weights `if *w OP MAX_MAX_NUM_BITS` (then-branch = reject)"))
+    m = need(b, r"if\s+max_bits\s*" + OPRE + r"\s*MAX_MAX_NUM_BITS", "build_table max_bits check")
+    G.append(("hufMaxBitsTooHigh", m.group("op"), "huff0_decoder.rs build_table_from_weights `if max_bits OP MAX_MAX_NUM_BITS` (then-branch = reject)"))
+    b = fn_body(dec, "new", "huf")
+    m = need(dec, r"fse_table\s*:\s*FSETable::new\(\s*(\d+)\s*\)", "HuffmanTable::new fse max symbol")
+    N.append(("hufFseMaxSymbol", int(m.group(1)), "huff0_decoder.rs HuffmanTable::new: FSETable::new(K)"))
+    # --- literals section decoder
+    b = fn_body(lsd, "decompress_literals", "huf")
+    m = need(b, r"if\s+source\.len\(\)\s*" + OPRE + r"\s*(\d+)\s*\{\s*return\s+Err\(err::MissingBytesForJumpHeader", "decompress_literals jump header")
+    G.append(("hufJumpHeaderMissing", m.group("op"), "literals_section_decoder.rs `if source.len() OP 6` (then-branch = MissingBytesForJumpHeader)"))
+    N.append(("hufJumpHeaderLen", int(m.group(2)), "literals_section_decoder.rs jump header length"))
+    m = need(b, r"if\s+source\.len\(\)\s*" + OPRE + r"\s*jump3\s*\{", "decompress_literals jump3 check")
+    G.append(("hufJumpTooFar", m.group("op"), "literals_section_decoder.rs `if source.len() OP jump3` (then-branch = MissingBytesForLiterals)"))
+    L = ["/- GENERATED by tools/extract.py from /repo — do not edit. -/", "namespace Zstd.Gen", ""]
+    for name, val, where in N:
+        L.append(f"/-- `{where}` -/")
+        L.append(f"def {name} : Nat := {val}")
+    for name, op, where in G:
+        L.append(f"/-- `{where}`; source operator `{op}` -/")
+        L.append(f"def {name} (a b : Nat) : Bool := decide ({OPS[op]})")
+    L.append("/-- `write_table` direct form: is `weight2` (the second weight of a pair) written first, i.e. into the LOW nibble? -/")
+    L.append(f"def hufPairSecondLow : Bool := {'true' if order[0] == 'weight2' else 'false'}")
+    L.append("/-- `read_weights` direct form: does an even index take the HIGH nibble (`>> 4`)? -/")
+    L.append(f"def hufEvenIdxHigh : Bool := {'true' if dec_even_high else 'false'}")
+    L += ["", "end Zstd.Gen", ""]
+    return "\n".join(L)
+
+
 MODULES = {
     "Consts": gen_consts,
     "DecTables": gen_dectables,
@@ -1153,6 +1259,7 @@ MODULES = {
     "Fse": gen_fse,
     "Guards": gen_guards,
     "Headers": gen_headers,
+    "Huf": gen_huf,
     "Reset": gen_reset,
     "Matcher": gen_matcher,
 }
